@@ -18,6 +18,10 @@ CLAIMED = {
    "Structural conditions decided on every run: no scanner recognises an escape by look-behind (with a stored positive control), a multi-step scan cursor is never compared with the end by ==, every call of the extractor constructor and of the match constructor is dominated by tests excluding the inputs they panic on (forward constant-set dataflow over the callers), the parser returns a nil node only with the error recorder's tokenizer, the quoting trigger covers the tokenizer's special characters and the operator sets equal the documented ones, order sentinels agree between parser and compiler and unknown orders return an error, space classification is applied to decoded runes, and misplaced .config/.unit are answered with an error.",
    "Does not decide totality of parsing on arbitrary text, error offsets, or the regexp delimiter scanner's corner cases. Trusted: go/types, go/ssa, the documented grammar transcribed in the checker.",
    "SSA site rules + forward constant-set dataflow (guard-then-use) + table agreement"),
+ "C09": ("DESIGN.md §4 C09",
+   "Structural conditions decided on every run: the comparison step is extracted from the SSA as a decision table over (field present in a / in b, strings equal, comparator zero/negative) and compared with the required table (missing = empty string and never skipped, comparator called with (a,b), sign decides, string fallback on comparator-equal, equal continues, equal tuples not less); observation ranks are recorded over the same flattened field list the comparison walks, for trimmed values as the empty string, only on first observation and as the map's size; the num comparator's full decision table equals DESIGN Appendix A3 and alpha is strings.Compare; both public entry points use the one comparison over the flattened fields; the flattened-field cache is only reset, never patched.",
+   "Does not decide the fuzzy number parser, sort.Slice itself, or that ranks recorded during interning are the ranks in force when sorting. Trusted: go/types, go/ssa, tables A3 and the step table in the checker.",
+   "decision-table extraction (abstract interpretation of SSA over a finite predicate domain) + producer/consumer site rules"),
 }
 
 NOT_YET = "check not built yet in this round (planned in DESIGN.md); not claimed until its rules run clean on the unchanged tree"
